@@ -35,11 +35,10 @@ theorem ragListItems_lines (ordered : Bool) (items : List (Int × Str)) :
     | false => simp [ragListItems, ragListLines, joinLines_cons, ih]
     | true => simp [ragListItems, ragListLines, joinLines_cons, ih]
 
-/-- **list_roundtrip for the chunk writer**: every line `createListChunk` writes is a list item
-line whose depth is the item's level (negative levels count as 0), whose kind is the list's kind
-and whose text is the item's text — for any levels in any order, any number of items.  (Stated on
-the lines as written; what `strings.TrimSpace` then does to the first line is
-`rag_list_text_partial` / `rag_list_first_nested_counterexample`.) -/
+/-- every line `createListChunk` writes is a list item line whose depth is the item's level
+(negative levels count as 0), whose kind is the list's kind and whose text is the item's text —
+for any levels in any order, any number of items, from any state of the level counters.  (The
+lines as the loop writes them; `rag_list_roundtrip` is the statement on the chunk text.) -/
 theorem rag_list_lines_roundtrip (ordered : Bool) (items : List (Int × Str)) :
     ∀ (ctrs : Ctr) (last : Int), ctrNN ctrs →
       (ragListLines ordered items ctrs last).map parseListLine
@@ -75,24 +74,102 @@ theorem rag_list_lines_roundtrip (ordered : Bool) (items : List (Int × Str)) :
       have := parseListLine_listLine ⟨lvl.toNat, true, (ctrGet c1 lvl + 1).toNat, txt⟩
       simpa [listLine, indent2] using this
 
-theorem rag_list_roundtrip (ordered : Bool) (items : List (Int × Str)) :
+/-- the written lines of a whole list (counters empty, no item before) -/
+theorem rag_list_written_lines_roundtrip (ordered : Bool) (items : List (Int × Str)) :
     (ragListLines ordered items [] (-1)).map parseListLine
       = items.map fun it => some (it.1.toNat, ordered, it.2) :=
   rag_list_lines_roundtrip ordered items [] (-1) (by intro e he; simp at he)
 
 example : (ragListLines true [(0, [97]), (1, [98]), (1, [99]), (0, [100])] [] (-1)).map parseListLine
     = [some (0, true, [97]), some (1, true, [98]), some (1, true, [99]), some (0, true, [100])] :=
-  rag_list_roundtrip _ _
+  rag_list_written_lines_roundtrip _ _
 
-/-- the pinned behaviour, recorded finding `C15/list-depth-ragdoc-first-item-nested`: the chunk
-text is `strings.TrimSpace` of the lines, so a FIRST item that is nested loses its indentation —
-the list `[a at depth 1, b at depth 0]` reads back with `a` at depth 0.  The full statement
-(`(splitLines (ragListText ordered items)).map parseListLine = items.map …` for all items) is
-false for this reason; `rag_list_roundtrip` is what holds for all inputs (the lines before the
-trimming). -/
-theorem rag_list_first_nested_counterexample :
-    ragListText false [(1, [97]), (0, [98])] = [45, 32, 97, 10, 45, 32, 98] ∧
-    (splitLines (ragListText false [(1, [97]), (0, [98])])).map parseListLine
+/-- a written line holds no newline when the item texts hold none -/
+theorem ragListLines_noNl (ordered : Bool) (items : List (Int × Str)) (h : ∀ it ∈ items, 10 ∉ it.2) :
+    ∀ (ctrs : Ctr) (last : Int), ∀ l ∈ ragListLines ordered items ctrs last, 10 ∉ l := by
+  induction items with
+  | nil => intro _ _ l hl; simp [ragListLines] at hl
+  | cons it rest ih =>
+    intro ctrs last l hl
+    obtain ⟨lvl, txt⟩ := it
+    have ht : 10 ∉ txt := h (lvl, txt) (by simp)
+    have hr : ∀ it ∈ rest, 10 ∉ it.2 := fun it hit => h it (List.mem_cons_of_mem _ hit)
+    have hi := indent2_noNl lvl
+    cases ordered with
+    | false =>
+      simp only [ragListLines, Bool.false_eq_true, if_false, List.mem_cons] at hl
+      rcases hl with rfl | hl
+      · simp [hi, ht]
+      · exact ih hr _ _ l hl
+    | true =>
+      simp only [ragListLines, if_true, List.mem_cons] at hl
+      rcases hl with rfl | hl
+      · have hd := decInt_noNl (ctrGet (if lvl ≤ last then ctrs.filter (fun e => !(decide (e.1 > lvl))) else ctrs) lvl + 1)
+        simp [hi, ht, hd]
+      · exact ih hr _ _ l hl
+
+/-- the line of the last item ends with that item's text -/
+theorem ragListLines_snoc (ordered : Bool) (items : List (Int × Str)) (lastIt : Int × Str) :
+    ∀ (ctrs : Ctr) (last : Int), ∃ (L : List Str) (pre : Str),
+      ragListLines ordered (items ++ [lastIt]) ctrs last = L ++ [pre ++ lastIt.2] := by
+  induction items with
+  | nil =>
+    intro ctrs last
+    obtain ⟨lvl, txt⟩ := lastIt
+    cases ordered with
+    | false => exact ⟨[], indent2 lvl ++ [45, 32], by simp [ragListLines]⟩
+    | true =>
+      exact ⟨[], indent2 lvl ++ decInt (ctrGet (if lvl ≤ last then ctrs.filter (fun e => !(decide (e.1 > lvl))) else ctrs) lvl + 1)
+        ++ [46, 32], by simp [ragListLines]⟩
+  | cons it rest ih =>
+    intro ctrs last
+    obtain ⟨lvl, txt⟩ := it
+    cases ordered with
+    | false =>
+      obtain ⟨L, pre, h⟩ := ih (if lvl ≤ last then ctrs.filter (fun e => !(decide (e.1 > lvl))) else ctrs) lvl
+      exact ⟨(indent2 lvl ++ [45, 32] ++ txt) :: L, pre, by simp [ragListLines, h]⟩
+    | true =>
+      obtain ⟨L, pre, h⟩ := ih (ctrSet (if lvl ≤ last then ctrs.filter (fun e => !(decide (e.1 > lvl))) else ctrs) lvl
+        (ctrGet (if lvl ≤ last then ctrs.filter (fun e => !(decide (e.1 > lvl))) else ctrs) lvl + 1)) lvl
+      exact ⟨(indent2 lvl ++ decInt (ctrGet (if lvl ≤ last then ctrs.filter (fun e => !(decide (e.1 > lvl))) else ctrs) lvl + 1)
+        ++ [46, 32] ++ txt) :: L, pre, by simp [ragListLines, h]⟩
+
+/-- **list_roundtrip for the chunk writer, on the chunk text** (full statement since efed37d):
+the text of the chunk `createListChunk` builds — the item lines, trailing white space trimmed —
+read line by line gives back every item of the list, in order, with its nesting depth (the
+item's level, negative levels count as 0), the list's kind and its text: for any levels in any
+order, in particular for a list whose FIRST item is nested.  Hypotheses: item texts are single
+lines, and the last item's text ends in a byte that is not white space (the trailing trim would
+shorten it; an empty last text leaves `-` without the blank a list marker needs). -/
+theorem rag_list_roundtrip (ordered : Bool) (items : List (Int × Str)) (lastIt : Int × Str) (c : Nat)
+    (hnl : ∀ it ∈ items ++ [lastIt], 10 ∉ it.2)
+    (hend : lastIt.2.getLast? = some c) (hws : isWs c = false) :
+    (splitLines (ragListText ordered (items ++ [lastIt]))).map parseListLine
+      = (items ++ [lastIt]).map fun it => some (it.1.toNat, ordered, it.2) := by
+  have hlines := ragListLines_noNl ordered (items ++ [lastIt]) hnl [] (-1)
+  obtain ⟨L, pre, hs⟩ := ragListLines_snoc ordered items lastIt [] (-1)
+  have hlast : (pre ++ lastIt.2).getLast? = some c := by
+    rw [List.getLast?_append, hend]; rfl
+  unfold ragListText
+  rw [ragListItems_lines, hs,
+    splitLines_trimRight_joinLines L (pre ++ lastIt.2) c (by rw [← hs]; exact hlines) hlast hws, ← hs]
+  exact rag_list_written_lines_roundtrip ordered (items ++ [lastIt])
+
+/-- the witness of the former finding: first item nested, then a top-level item -/
+example : (splitLines (ragListText false ([(1, [97])] ++ [(0, [98])]))).map parseListLine
+    = [some (1, false, [97]), some (0, false, [98])] :=
+  rag_list_roundtrip false [(1, [97])] (0, [98]) 98 (by decide) rfl (by decide)
+
+/-- the chunk text of that list, byte by byte: `  - a\n- b` -/
+example : ragListText false [(1, [97]), (0, [98])] = [32, 32, 45, 32, 97, 10, 45, 32, 98] := by decide
+
+/-- the pinned behaviour (finding `C15/list-depth-ragdoc-first-item-nested`, repaired by
+efed37d): the chunk text was `strings.TrimSpace` of the lines (`ragListTextPinned`), so a FIRST
+item that is nested lost its indentation — the list `[a at depth 1, b at depth 0]` read back with
+`a` at depth 0. -/
+theorem rag_list_first_nested_pinned_counterexample :
+    ragListTextPinned false [(1, [97]), (0, [98])] = [45, 32, 97, 10, 45, 32, 98] ∧
+    (splitLines (ragListTextPinned false [(1, [97]), (0, [98])])).map parseListLine
       ≠ [some (1, false, [97]), some (0, false, [98])] := by decide
 
 /-! ## the heading of a chunk -/
